@@ -693,6 +693,7 @@ package dnsmsg
 //@   ensures [C12:popped] r != nil ==> dynNonNil(r) && isOPT(r) && len(m.Additionals) == old(len(m.Additionals)) - 1
 //@   ensures r != nil ==> sameSlice(m.Additionals, old(m.Additionals), 0, len(m.Additionals)) && cap(m.Additionals) == old(cap(m.Additionals))
 //@   ensures [C12:popped-member] r != nil ==> exists(k, 0, old(len(m.Additionals)), r == old(m.Additionals[k]))
+//@   ensures [C12:rest-kept-or-moved] r != nil ==> forall(k, 0, len(m.Additionals), m.Additionals[k] == old(m.Additionals[k]) || m.Additionals[k] == old(m.Additionals[len(m.Additionals) - 1]))
 //@   ensures [C12:single] r != nil && old(atMostOneOPT(m.Additionals)) ==> noOPT(m.Additionals)
 //@   loop 1:
 //@     invariant -1 <= i && i <= end && end == len(m.Additionals) - 1
@@ -710,6 +711,7 @@ package dnsmsg
 //@   loop 1:
 //@     modifies m.Additionals, obj(m.Additionals), elems(old(m.Additionals))
 //@     invariant wfRecs(m.Additionals) && len(m.Additionals) <= loopOld(len(m.Additionals)) && sameSlice(m.Additionals, loopOld(m.Additionals), 0, len(m.Additionals))
+//@     invariant forall(k, 0, len(m.Additionals), exists(j, 0, len(old(m.Additionals)), old(m.Additionals[j]) == m.Additionals[k]))
 //@     decreases len(m.Additionals)
 
 // ---- msg.go: Len and Pack ---------------------------------------------------------------------------
